@@ -273,3 +273,54 @@ Proof.
     repeat (destruct Hin as [<-|Hin]; [eexists; vm_compute; reflexivity|]). contradiction. }
   cbv zeta. repeat split; vm_compute; reflexivity.
 Qed.
+
+(* ================================================================ C02 AT TEXT LEVEL, BATCH MODE
+   (appended; Proofs/NarrowBatchProofs.v).  One step beyond narrowed_text_eq_full_batch_partial, which
+   needs BOTH batch drains to complete: a batch drain of EITHER pipeline that completes, at any batch
+   size B >= 1, returns the rows (concatenated, in order, up to string / []byte) of the ROW drain of
+   the OTHER pipeline.  The batch boundaries themselves are not compared (they differ: the chunks of
+   a narrowed scan and of a full scan cut the accepted pairs at different places).
+   narrowed_batch_eq_full_partial: the FULL statement would be "under filter_answers and error-free
+   select fields / aggregate arguments / order keys on every ACCEPTED pair, the two batch drains both
+   complete with the same rows"; missing: the converse of C03's batch => row agreement (row drain
+   completes without a projection error => batch drain completes), which the development does not
+   have for any shape. *)
+From KV Require Import Proofs.NarrowBatchProofs.
+
+Theorem narrowed_batch_eq_full_partial :
+  forall (fo : fops) (re : bytes -> bytes -> res bool) (fmt_v : F fo -> string) (ag : aggops fo)
+         (pi pf : bytes -> option Z) (q : string) (d : store) (B : nat) (outs : list Order.row),
+    1 <= B -> ssorted d -> filter_answers fo re fmt_v q d ->
+    (forall pl, plan_stmt_text fo re fmt_v q = STOk pl -> fields_ok (q_fields fo (sp_q fo pl))) ->
+    select_stmt_text fo re fmt_v ag pi pf q d (MBatch B) = TOk outs ->
+    exists rows, select_stmt_text_full fo re fmt_v ag pi pf q d MRow = TOk rows /\ nrows rows = nrows outs.
+Proof. exact narrowed_batch_full_row. Qed.
+Print Assumptions narrowed_batch_eq_full_partial.
+
+Theorem full_batch_eq_narrowed_partial :
+  forall (fo : fops) (re : bytes -> bytes -> res bool) (fmt_v : F fo -> string) (ag : aggops fo)
+         (pi pf : bytes -> option Z) (q : string) (d : store) (B : nat) (outs : list Order.row),
+    1 <= B -> ssorted d -> filter_answers fo re fmt_v q d ->
+    (forall pl, plan_stmt_text fo re fmt_v q = STOk pl -> fields_ok (q_fields fo (sp_q fo pl))) ->
+    select_stmt_text_full fo re fmt_v ag pi pf q d (MBatch B) = TOk outs ->
+    exists rows, select_stmt_text fo re fmt_v ag pi pf q d MRow = TOk rows /\ nrows rows = nrows outs.
+Proof. exact full_batch_narrowed_row. Qed.
+Print Assumptions full_batch_eq_narrowed_partial.
+
+(* non-vacuity: nt_q1 (prefix scan, ORDER BY + LIMIT over a projection) in batches of 1 and of 2:
+   both batch drains complete, fields_ok holds *)
+Example narrowed_batch_nonvacuous :
+  forall (fo : fops) (re : bytes -> bytes -> res bool) (fmt_v : F fo -> string) (ag : aggops fo)
+         (pi pf : bytes -> option Z),
+  (forall pl, plan_stmt_text fo re fmt_v nt_q1 = STOk pl -> fields_ok (q_fields fo (sp_q fo pl))) /\
+  select_stmt_text fo re fmt_v ag pi pf nt_q1 nt_store (MBatch 1) = TOk [[Order.VBytes "ab"; Order.VInt 1]] /\
+  select_stmt_text fo re fmt_v ag pi pf nt_q1 nt_store (MBatch 2) = TOk [[Order.VBytes "ab"; Order.VInt 1]] /\
+  select_stmt_text_full fo re fmt_v ag pi pf nt_q1 nt_store (MBatch 2) = TOk [[Order.VBytes "ab"; Order.VInt 1]].
+Proof.
+  intros. split.
+  { intros pl Ep.
+    assert (E : exists pl0, plan_stmt_text fo re fmt_v nt_q1 = STOk pl0 /\ fields_ok (q_fields fo (sp_q fo pl0))).
+    { eexists. split; [vm_compute; reflexivity|]. cbn. repeat constructor. }
+    destruct E as (pl0 & E0 & H0). rewrite E0 in Ep. injection Ep as <-. exact H0. }
+  repeat split; vm_compute; reflexivity.
+Qed.
